@@ -50,6 +50,7 @@ def write_evidence(ctx, pr, wall, nviol):
         "theorems": pr.theorems,
         "assumptions_per_theorem": pr.assumptions,
         "lint_findings": pr.lint,
+        "coqchk": pr.coqchk if pr.coqchk is not None else "not run in the quick tier",
         "evaluations": ctx.evaluations,
         "distinct_nontrivial": len(ctx.nontrivial),
         "rule": ctx.rule,
@@ -107,12 +108,26 @@ def main(argv):
     ctx._changed = anchors_changed(prop)
     # 1. proof obligations
     pr = core.run_proofs(prop)
+    chk_thread = None
+    if tier == "thorough" and pr.ok:
+        import threading
+
+        def _chk():
+            pr.coqchk = core.run_coqchk(prop)
+        chk_thread = threading.Thread(target=_chk)
+        chk_thread.start()
     # 2/3. corpus + correspondence (+ oracles)
     crashed = None
     try:
         mod.run(ctx)
     except Exception:  # harness crash = broken correspondence, reported as such
         crashed = traceback.format_exc()
+    if chk_thread is not None:
+        chk_thread.join()
+        extra = [a for a in pr.coqchk["axioms"] if a not in core.ALLOWED_AXIOMS]
+        if not pr.coqchk["ok"] or extra:
+            pr.ok = False
+            pr.log += "\ncoqchk: " + json.dumps(pr.coqchk)[:2500] + (f"\naxioms outside the stated trusted base: {extra}" if extra else "")
     # 4. verdict
     lines = []
     for fid, what in sorted(ctx.known.items()):
